@@ -19,6 +19,16 @@ func tokOK(z *Tokenizer) bool {
 	return 0 <= z.raw.start && z.raw.start <= z.raw.end && z.raw.end <= len(z.buf)
 }
 
+// tokData(z): the span invariant while a token is being read: the data span starts inside the
+// raw span of the current token, which lies inside the buffer. (data.end is set when the token is
+// complete; until then it may be stale.) readByte keeps it: a compaction shifts raw.start to 0 and
+// raw.end, data.start, data.end by the old raw.start, so offsets relative to raw.start survive.
+//
+//@ pure
+func tokData(z *Tokenizer) bool {
+	return 0 <= z.raw.start && z.raw.start <= z.data.start && z.data.start <= z.raw.end && z.raw.end <= len(z.buf)
+}
+
 //@ func readAtLeastOneByte(r, b) (n, err)
 //@   requires r != nil
 //@   ensures 0 <= n && n <= len(b) && n <= cap(b)
@@ -49,9 +59,21 @@ func tokOK(z *Tokenizer) bool {
 //@   ensures len(z.buf) - z.raw.start >= old(len(z.buf) - z.raw.start)
 //@   ensures samebase(z.buf, old(z.buf)) || fresh(z.buf)
 //@   ensures z.maxBuf == old(z.maxBuf) && z.r == old(z.r)
+//@   ensures z.raw.start == old(z.raw.start) || z.raw.start == 0
+//@   ensures old(z.raw.end) < old(len(z.buf)) ==> z.raw.start == old(z.raw.start) && samebase(z.buf, old(z.buf)) && startoff(z.buf) == old(startoff(z.buf)) && len(z.buf) == old(len(z.buf))
+//@   ensures old(z.raw.end) >= old(len(z.buf)) && old(z.readErr) == nil ==> z.raw.start == 0
+//@   ensures old(z.raw.end) >= old(len(z.buf)) && old(z.readErr) != nil ==> z.err == old(z.readErr) && z.raw.start == old(z.raw.start) && z.raw.end == old(z.raw.end)
+//@   ensures (z.raw.start == old(z.raw.start) && z.data.start == old(z.data.start) && z.data.end == old(z.data.end) && (z.raw.end == old(z.raw.end) || z.raw.end == old(z.raw.end) + 1)) || (z.raw.start == 0 && old(z.raw.end) >= old(len(z.buf)) && z.data.start == old(z.data.start) - old(z.raw.start) && z.data.end == old(z.data.end) - old(z.raw.start) && (z.raw.end == old(z.raw.end) - old(z.raw.start) || z.raw.end == old(z.raw.end) - old(z.raw.start) + 1))
+//@   ensures z.data.start - z.raw.start == old(z.data.start - z.raw.start) && z.data.end - z.raw.start == old(z.data.end - z.raw.start)
+//@   ensures old(z.err) == nil && z.err == nil ==> z.raw.end - z.data.start == old(z.raw.end - z.data.start) + 1
+//@   ensures old(tokData(z)) ==> tokData(z)
+//@   ensures z.pendingAttr[0].start - z.raw.start == old(z.pendingAttr[0].start - z.raw.start) && z.pendingAttr[0].end - z.raw.start == old(z.pendingAttr[0].end - z.raw.start)
+//@   ensures z.pendingAttr[1].start - z.raw.start == old(z.pendingAttr[1].start - z.raw.start) && z.pendingAttr[1].end - z.raw.start == old(z.pendingAttr[1].end - z.raw.start)
 //@   modifies z.err, z.readErr, z.raw, z.buf, z.data, z.pendingAttr, elems(z.buf), spare(z.buf), elems(z.attr)
 //@   allocates
 //@   loop 1 invariant -1 <= rangeindex && rangeindex < len(z.attr)
+//@   loop 1 invariant z.data.start == atloop(z.data.start) && z.data.end == atloop(z.data.end)
+//@   loop 1 invariant 0 <= d && d == len(buf1) && d <= cap(buf1)
 //@   loop 1 modifies elems(z.attr)
 
 // The small scanners. Common shape: they keep tokOK, never move raw.start, only set z.err (never
@@ -64,22 +86,29 @@ func tokOK(z *Tokenizer) bool {
 //@   ensures old(z.err) != nil ==> z.err == old(z.err) && z.raw.end == old(z.raw.end) && z.raw.start == old(z.raw.start)
 //@   ensures z.err == nil ==> old(z.err) == nil
 //@   ensures z.err == nil && z.raw.end < len(z.buf) ==> !isHTMLSpace(z.buf[z.raw.end])
+//@   ensures z.data.start - z.raw.start == old(z.data.start - z.raw.start) && z.data.end - z.raw.start == old(z.data.end - z.raw.start)
+//@   ensures old(tokData(z)) ==> tokData(z)
 //@   ensures (samebase(z.buf, old(z.buf)) || fresh(z.buf)) && z.maxBuf == old(z.maxBuf) && z.r == old(z.r)
 //@   modifies z.err, z.readErr, z.raw, z.buf, z.data, z.pendingAttr, elems(z.buf), spare(z.buf), elems(z.attr)
 //@   allocates
 //@   loop 1 invariant z.err == nil && tokOK(z) && z.raw.end - z.raw.start >= old(z.raw.end - z.raw.start) && z.maxBuf == old(z.maxBuf) && z.r == old(z.r) && (samebase(z.buf, old(z.buf)) || fresh(z.buf))
+//@   loop 1 invariant z.data.start - z.raw.start == old(z.data.start - z.raw.start) && z.data.end - z.raw.start == old(z.data.end - z.raw.start)
+//@   loop 1 invariant old(tokData(z)) ==> tokData(z)
 //@   loop 1 modifies *z, elems(z.buf), elems(z.attr)
 //@
 //@ func (*Tokenizer).readUntilCloseAngle(z)
-//@   requires z != nil && z.r != nil && tokOK(z) && z.err == nil
+//@   requires z != nil && z.r != nil && tokOK(z)
 //@   ensures tokOK(z) && z.raw.end - z.raw.start >= old(z.raw.end - z.raw.start)
 //@   ensures z.raw.start <= z.data.end && z.data.end <= z.raw.end
 //@   ensures z.err == nil ==> z.data.end == z.raw.end - 1 && z.buf[z.raw.end - 1] == '>'
 //@   ensures z.err != nil ==> z.data.end == z.raw.end
+//@   ensures z.data.start - z.raw.start == old(z.raw.end - z.raw.start) && z.data.start <= z.data.end
+//@   ensures tokData(z) && z.data.end <= z.raw.end
 //@   ensures (samebase(z.buf, old(z.buf)) || fresh(z.buf)) && z.maxBuf == old(z.maxBuf) && z.r == old(z.r)
 //@   modifies z.err, z.readErr, z.raw, z.buf, z.data, z.pendingAttr, elems(z.buf), spare(z.buf), elems(z.attr)
 //@   allocates
-//@   loop 1 invariant z.err == nil && tokOK(z) && z.raw.end - z.raw.start >= old(z.raw.end - z.raw.start) && z.maxBuf == old(z.maxBuf) && z.r == old(z.r) && (samebase(z.buf, old(z.buf)) || fresh(z.buf))
+//@   loop 1 invariant (old(z.err) == nil ==> z.err == nil) && tokOK(z) && z.raw.end - z.raw.start >= old(z.raw.end - z.raw.start) && z.maxBuf == old(z.maxBuf) && z.r == old(z.r) && (samebase(z.buf, old(z.buf)) || fresh(z.buf))
+//@   loop 1 invariant z.data.start - z.raw.start == old(z.raw.end - z.raw.start) && tokData(z)
 //@   loop 1 modifies *z, elems(z.buf), elems(z.attr)
 //@
 //@ func (*Tokenizer).readRawEndTag(z) (found)
@@ -91,6 +120,90 @@ func tokOK(z *Tokenizer) bool {
 //@   modifies z.err, z.readErr, z.raw, z.buf, z.data, z.pendingAttr, elems(z.buf), spare(z.buf), elems(z.attr)
 //@   allocates
 //@   loop 1 invariant 0 <= i && i <= len(z.rawTag) && z.err == nil && tokOK(z) && z.raw.end - z.raw.start == old(z.raw.end - z.raw.start) + i && z.maxBuf == old(z.maxBuf) && z.r == old(z.r) && z.rawTag == old(z.rawTag) && (samebase(z.buf, old(z.buf)) || fresh(z.buf))
+//@   loop 1 modifies *z, elems(z.buf), elems(z.attr)
+//@
+// readDoctype / readCDATA: the keyword matchers of a "<!" declaration. They are entered with
+// raw.end == data.start == the position after "<!". Mechanism of the property (losslessness): when
+// the keyword does not match (or the input ends inside it) NOTHING is consumed: raw.end is put back
+// to data.start, the position after "<!" in the coordinates of the CURRENT buffer (readByte may
+// have compacted the buffer in between: data.start is shifted with it, a saved copy of the old
+// raw.end would not be), so the token length is what it was at entry, the span stays inside the
+// buffer, and the bytes are read again as a bogus comment. z.err is only cleared on that io.EOF
+// back-up path (the EOF is hit again by the next readByte because readErr stays set).
+//
+//@ func (*Tokenizer).readDoctype(z) (ok)
+//@   requires z != nil && z.r != nil && tokData(z) && z.err == nil && z.raw.end == z.data.start
+//@   ensures tokData(z)
+//@   ensures !ok && z.err == nil ==> z.raw.end == z.data.start && z.raw.end - z.raw.start == old(z.raw.end - z.raw.start)
+//@   ensures !ok && z.err != nil ==> z.data.end == z.raw.end && z.err != io.EOF
+//@   ensures !ok ==> z.data.start - z.raw.start == old(z.data.start - z.raw.start)
+//@   ensures ok ==> z.data.start <= z.data.end && z.data.end <= z.raw.end
+//@   ensures !ok ==> z.raw.end - z.raw.start >= old(z.raw.end - z.raw.start)
+//@   ensures z.maxBuf == old(z.maxBuf) && z.r == old(z.r) && (samebase(z.buf, old(z.buf)) || fresh(z.buf))
+//@   modifies z.err, z.readErr, z.raw, z.buf, z.data, z.pendingAttr, elems(z.buf), spare(z.buf), elems(z.attr)
+//@   allocates
+//@   loop 1 invariant 0 <= i && i <= 7 && z.err == nil
+//@   loop 1 invariant tokData(z) && z.raw.end == z.data.start + i
+//@   loop 1 invariant z.data.start - z.raw.start == old(z.data.start - z.raw.start) && z.maxBuf == old(z.maxBuf) && z.r == old(z.r) && (samebase(z.buf, old(z.buf)) || fresh(z.buf))
+//@   loop 1 modifies *z, elems(z.buf), elems(z.attr)
+//@
+//@ func (*Tokenizer).readCDATA(z) (ok)
+//@   requires z != nil && z.r != nil && tokData(z) && (z.err == nil ==> z.raw.end == z.data.start)
+//@   ensures tokData(z)
+//@   ensures !ok && z.err == nil ==> z.raw.end == z.data.start
+//@   ensures !ok && z.err == nil && old(z.err) == nil ==> z.raw.end - z.raw.start == old(z.raw.end - z.raw.start)
+//@   ensures !ok && z.err != nil ==> z.data.end == z.raw.end
+//@   ensures !ok ==> z.data.start - z.raw.start == old(z.data.start - z.raw.start)
+//@   ensures ok ==> z.data.start <= z.data.end && z.data.end <= z.raw.end && z.data.start - z.raw.start == old(z.data.start - z.raw.start) + 7
+//@   ensures !ok ==> z.raw.end - z.raw.start >= old(z.data.start - z.raw.start)
+//@   ensures z.maxBuf == old(z.maxBuf) && z.r == old(z.r) && (samebase(z.buf, old(z.buf)) || fresh(z.buf))
+//@   modifies z.err, z.readErr, z.raw, z.buf, z.data, z.pendingAttr, elems(z.buf), spare(z.buf), elems(z.attr)
+//@   allocates
+//@   loop 1 invariant 0 <= i && i <= 7 && tokData(z) && (i > 0 ==> z.err == nil && z.raw.end == z.data.start + i)
+//@   loop 1 invariant i == 0 ==> z.err == old(z.err) && (z.err == nil ==> z.raw.end == z.data.start)
+//@   loop 1 invariant z.data.start - z.raw.start == old(z.data.start - z.raw.start) && z.maxBuf == old(z.maxBuf) && z.r == old(z.r) && (samebase(z.buf, old(z.buf)) || fresh(z.buf))
+//@   loop 1 modifies *z, elems(z.buf), elems(z.attr)
+//@   loop 2 invariant z.err == nil && tokData(z)
+//@   loop 2 invariant 0 <= z.raw.end - z.data.start
+//@   loop 2 invariant 0 <= brackets && brackets <= z.raw.end - z.data.start
+//@   loop 2 invariant z.data.start - z.raw.start == old(z.data.start - z.raw.start) + 7 && z.maxBuf == old(z.maxBuf) && z.r == old(z.r) && (samebase(z.buf, old(z.buf)) || fresh(z.buf))
+//@   loop 2 modifies *z, elems(z.buf), elems(z.attr)
+//@
+// readComment / readMarkupDeclaration: same invariant. readMarkupDeclaration is entered after "<!"
+// has been read; it marks data.start there, peeks at two bytes and un-reads them (raw.end -= 2 is
+// data.start again, whatever compaction happened in between), so readDoctype/readCDATA start with
+// raw.end == data.start (their precondition, an obligation at the calls). Every path ends with
+// raw.start <= data.start <= data.end <= raw.end <= len(buf) and a token not shorter than "<!".
+//
+//@ func hasSuffix(b, suffix) (r)
+//@   ensures r ==> len(b) >= len(suffix)
+//@   loop 1 invariant -1 <= rangeindex && rangeindex < len(b) && len(b) == len(suffix)
+//@
+//@ func (*Tokenizer).calculateAbruptCommentDataEnd(z) (r)
+//@   requires z != nil && tokOK(z)
+//@   ensures z.raw.end - 3 <= r && r <= z.raw.end
+//@
+//@ func (*Tokenizer).readComment(z)
+//@   requires z != nil && z.r != nil && tokOK(z) && z.err == nil
+//@   ensures tokData(z) && z.data.start <= z.data.end && z.data.end <= z.raw.end
+//@   ensures z.data.start - z.raw.start == old(z.raw.end - z.raw.start)
+//@   ensures z.raw.end - z.raw.start >= old(z.raw.end - z.raw.start)
+//@   ensures z.maxBuf == old(z.maxBuf) && z.r == old(z.r) && (samebase(z.buf, old(z.buf)) || fresh(z.buf))
+//@   modifies z.err, z.readErr, z.raw, z.buf, z.data, z.pendingAttr, elems(z.buf), spare(z.buf), elems(z.attr)
+//@   allocates
+//@   loop 1 invariant z.err == nil && tokData(z) && z.data.start - z.raw.start == old(z.raw.end - z.raw.start)
+//@   loop 1 invariant z.maxBuf == old(z.maxBuf) && z.r == old(z.r) && (samebase(z.buf, old(z.buf)) || fresh(z.buf))
+//@   loop 1 modifies *z, elems(z.buf), elems(z.attr)
+//@
+//@ func (*Tokenizer).readMarkupDeclaration(z) (tt)
+//@   requires z != nil && z.r != nil && tokOK(z) && z.err == nil
+//@   ensures tokData(z) && z.data.start <= z.data.end && z.data.end <= z.raw.end
+//@   ensures tt == CommentToken || tt == DoctypeToken || tt == TextToken
+//@   ensures z.maxBuf == old(z.maxBuf) && z.r == old(z.r) && (samebase(z.buf, old(z.buf)) || fresh(z.buf))
+//@   modifies z.err, z.readErr, z.raw, z.buf, z.data, z.pendingAttr, z.convertNUL, elems(z.buf), spare(z.buf), elems(z.attr)
+//@   allocates
+//@   loop 1 invariant 0 <= i && i <= 2 && z.err == nil && tokData(z) && z.raw.end == z.data.start + i
+//@   loop 1 invariant z.data.start - z.raw.start == old(z.raw.end - z.raw.start) && z.maxBuf == old(z.maxBuf) && z.r == old(z.r) && (samebase(z.buf, old(z.buf)) || fresh(z.buf))
 //@   loop 1 modifies *z, elems(z.buf), elems(z.attr)
 //@
 //@ func (*Tokenizer).Raw(z) (r)
